@@ -7,6 +7,7 @@ class Facts:
         with open(path) as f:
             self.raw = json.load(f)
         r = self.raw
+        self.role_renames = canonicalise_roles(r)
         self.crate = r['crate']
         self.cfg = r['cfg']
         self.sources = r['sources']
@@ -68,6 +69,51 @@ class Facts:
                 h = (h * 0x100000001b3) & 0xffffffffffffffff
             if '%016x' % h != s['fnv1a64']:
                 raise RuntimeError('stale facts: %s changed since extraction' % p)
+
+def canonicalise_roles(raw):
+    """rename private state fields to their canonical role names (spec/roles.py); returns {adt: {actual: canonical}}"""
+    try:
+        from spec.roles import ROLES
+    except ImportError:
+        return {}
+    ren = {}
+    for a in raw['adts']:
+        roles = ROLES.get(a['path'])
+        if not roles or a.get('kind') != 'Struct' or len(a['variants']) != 1: continue
+        fields = a['variants'][0]['fields']
+        m = {}
+        for canon, tys in roles:
+            cands = [fd for fd in fields if fd.get('vis') == 'priv' and fd['ty'].replace("'_", '') in tys]
+            if len(cands) == 1 and cands[0]['name'] != canon: m[cands[0]['name']] = canon
+        # a rename must not collide with another field that keeps its name
+        keep = {fd['name'] for fd in fields if fd['name'] not in m}
+        if not m or any(c in keep for c in m.values()) or len(set(m.values())) != len(m): continue
+        ren[a['path']] = m
+        for fd in fields:
+            if fd['name'] in m: fd['name'] = m[fd['name']]
+    if not ren: return ren
+    def base_ty(t):
+        return strip_refs(norm_ty(t))
+    def walk(x):
+        if isinstance(x, dict):
+            k = x.get('k')
+            if k == 'Field' and isinstance(x.get('lhs'), dict):
+                m = ren.get(base_ty(x['lhs'].get('ty', '')))
+                if m and x.get('name') in m: x['name'] = m[x['name']]
+            elif k == 'Adt' and x.get('adt') in ren:
+                m = ren[x['adt']]
+                for fd in x.get('fields', []):
+                    if fd.get('name') in m: fd['name'] = m[fd['name']]
+            elif k in ('Leaf', 'Variant') and 'subs' in x:
+                m = ren.get(x.get('adt') or base_ty(x.get('ty', '')))
+                if m:
+                    for sp_ in x['subs']:
+                        if sp_.get('field') in m: sp_['field'] = m[sp_['field']]
+            for v in x.values(): walk(v)
+        elif isinstance(x, list):
+            for v in x: walk(v)
+    walk(raw['bodies'])
+    return ren
 
 _LT = re.compile(r"'[a-z_]+\s*,?\s*|&'[a-z_]+ ")
 
